@@ -390,20 +390,25 @@ theorem hashAddr_bridge (body : List Stmt) (hb : normStmts body = normStmts GoMo
     by_cases h : src.length = 8 <;> simp [h] <;> omega
   simp only [GoModel.fn_HashAddr, runRet, eval, evalC, upd, hlen, c4, c8, if_true, Nat.reduceEqDiff, if_false]
   by_cases l4 : src.length = 4
-  · simp only [l4, decide_true, cond_true, if_true, retVal, h1, evalOp]
+  · simp only [l4, decide_true, cond_true, if_true, h1]
+    rw [retVal_some]
+    simp only [evalOp]
     obtain ⟨a, b, c, d, rfl⟩ := len4_cases src l4
     rw [hashAddr_4]
-    simp only [Hash.toInt, Option.getD_some]
+    have ti : Hash.toInt [a, b, c, d] = some (Hash.wrap32 (a * 16777216 + b * 65536 + c * 256 + d)) := rfl
+    rw [ti, Option.getD_some]
     have hr : ∀ v : Int, norm .i64 (Hash.wrap32 v) = Hash.wrap32 v := by
       intro v; unfold Hash.wrap32; simp only [norm, Ty.half, Ty.modulus]; omega
     simp only [upd, if_true, hr]
     rfl
   · simp only [l4, decide_false, cond_false]
     by_cases l8 : src.length = 8
-    · simp only [l8, decide_true, cond_true, retVal, h3]
+    · simp only [l8, decide_true, cond_true, h3]
+      rw [retVal_some]
       obtain ⟨a, b, c, d, e, f, g, i, rfl⟩ := len8_cases src l8
       rw [hashAddr_8]
-    · simp only [l8, decide_false, cond_false, retVal, h4]
+    · simp only [l8, decide_false, cond_false, h4]
+      rw [retVal_some]
       have hh : norm .i64 (Hash.hash src) = Hash.hash src := by
         unfold Hash.hash Hash.toI32
         simp only [norm, Ty.half, Ty.modulus]; split <;> omega
